@@ -333,6 +333,10 @@ def rand_file(rng, version, size="small"):
             systypes.append([extra, rng.sample(["C1C", "L1C", "S1C", "C2W"], 2)])
             rng.shuffle(systypes)
     t0 = rand_time0(rng)
+    new_year = rng.random() < 0.12
+    if new_year:
+        # a session running over New Year: the epoch records are in another calendar year than TIME OF FIRST OBS
+        t0 = [rng.choice([2005, 2017, 2017, 2022, 2099]), 12, 31, 23, 59, rng.choice([0, 15, 30, 45, 59])]
     sub = rng.random() < 0.35
     step7 = rng.choice([1, 5, 10, 15, 30]) * 10 ** 7 if not sub else rng.choice([10 ** 6, 5 * 10 ** 6, 2 * 10 ** 6, 2500000, 1234567])
     nep = rng.choice([1, 2, 3, 4, 6]) if not big else rng.choice([2, 3, 5, 8])
@@ -354,20 +358,32 @@ def rand_file(rng, version, size="small"):
                                   rng.randrange(1, 5001), -rng.randrange(1, 5001)]) for _ in range(nep - 1)]
         tots = [g0 + k * mult * rate7 + offs[k] - base7 for k in range(nep)]
         s7 = tots[0]
-    def hms(tot):
+    import datetime as _dt
+
+    def ymdhms(tot):
+        # calendar arithmetic in whole minutes (exact), seconds stay an integer number of 1e-7 s below one minute
         mm_, ss7_ = divmod(tot, 60 * 10 ** 7)
-        mi_ = t0[4] + mm_
-        return t0[3] + mi_ // 60, mi_ % 60, ss7_
-    fh, fm, fs7 = hms(s7)
-    first = [t0[0], t0[1], t0[2], fh, fm, fs7]
+        d_ = _dt.datetime(t0[0], t0[1], t0[2], t0[3], t0[4]) + _dt.timedelta(minutes=mm_)
+        return [d_.year, d_.month, d_.day, d_.hour, d_.minute, ss7_]
+    if new_year and not (sampling is not None and near_grid):
+        nep = max(nep, 3)
+        step7 = rng.choice([15, 30, 30, 60]) * 10 ** 7
+        s7 = t0[5] * 10 ** 7
+        tots = [s7 + k * step7 for k in range(nep)]
+    first = ymdhms(tots[0])
     hdr = rand_header(rng, version, first)
+    if new_year:
+        last_t = ymdhms(tots[-1])
+        # no TIME OF LAST OBS (the records must be resolved from the first observation alone), or the true one (next year:
+        # midgard stops with a fatal log for RINEX 2, both model and code), or one in the year of the first observation
+        hdr["last"] = rng.choice([None, None, None, last_t, [t0[0], 12, 31, 23, 59, 59 * 10 ** 7]])
     gps_blank = version == 2 and systems == ["G"] and rng.random() < 0.5
     hdr["sat_sys_text"] = (("M (MIXED)" if rng.random() < 0.5 else "M") if nsys > 1 else
                            ("" if gps_blank and rng.random() < 0.5 else systems[0] + rng.choice(["", " (GPS)" if systems[0] == "G" else ""])))
     p_absent = rng.choice([0.05, 0.25, 0.5, 0.8])
     epochs = []
     for k in range(nep):
-        hh, mi, ss7 = hms(tots[k])
+        ey, emo, ed, hh, mi, ss7 = ymdhms(tots[k])
         nsat = (rng.choice([1, 2, 3, 5, 8, 11, 12, 13, 20, 24, 25, 36, 37, 40]) if big else rng.choice([1, 1, 2, 3, 4, 6, 12, 13]))
         sats = []
         pool_ids = [(s_, p_) for s_ in systems for p_ in range(1, 38)]
@@ -385,11 +401,11 @@ def rand_file(rng, version, size="small"):
         clk = None
         if rng.random() < 0.4:
             clk = rng.choice([0, 2, -123456789, 123456789012 if version == 3 else 123456789, rng.randrange(-10 ** 9, 10 ** 9)])
-        ep = dict(t=[t0[0], t0[1], t0[2], hh, mi, ss7], clk=clk, sats=sats, comment_after=[], yy_zero=rng.random() < 0.8)
+        ep = dict(t=[ey, emo, ed, hh, mi, ss7], clk=clk, sats=sats, comment_after=[], yy_zero=rng.random() < 0.8)
         if rng.random() < 0.1:
             ep["comment_after"] = [rng.choice(TEXTS) for _ in range(rng.choice([1, 2]))]
         epochs.append(ep)
     style = dict(strip=rng.random() < 0.6, hdr_strip=rng.random() < 0.5, hdr_pad80=rng.random() < 0.3)
     if rng.random() < 0.3:
         style["strip_pattern"] = [rng.random() < 0.5 for _ in range(rng.randrange(2, 7))]
-    return dict(version=version, hdr=hdr, systypes=systypes, epochs=epochs, style=style, sampling=sampling, near_grid=near_grid)
+    return dict(version=version, hdr=hdr, systypes=systypes, epochs=epochs, style=style, sampling=sampling, near_grid=near_grid, new_year=new_year)
